@@ -209,16 +209,21 @@ PROPS["C20"] = dict(
     lean_targets=["BB.Props.C20"],
     theorems=["BB.Props.C20.inv_step", "BB.Props.C20.first_immediately", "BB.Props.C20.at_most_count", "BB.Props.C20.at_most_one_after_cancel",
               "BB.Props.C20.closed_iff_goroutine_gone", "BB.Props.C20.cancelled_goroutine_not_stuck",
-              "BB.Props.C20.cancelled_leadsTo_closed", "BB.Props.C20.closed_promptly_after_cancel", "BB.Props.C20.demoRun_fair"],
+              "BB.Props.C20.cancelled_leadsTo_closed", "BB.Props.C20.closed_promptly_after_cancel", "BB.Props.C20.demoRun_fair",
+              "BB.Props.C20.forwarded_stamps_nondecreasing", "BB.Props.C20.forwarded_id_of_nondecreasing"],
     corr=[dict(family="attempt", quick=150, thorough=6000, mismatch_is_violation=True, no_shrink=True,
                nontrivial=has("slow_consumer_tick_dropped", "cancel_between_recheck_and_send", "sent_after_cancel", "exit_by_recheck",
-                              "exit_by_ctxdone", "pre_cancelled", "count_reached", "recv_after_cancel"),
+                              "exit_by_ctxdone", "pre_cancelled", "count_reached", "recv_after_cancel", "tiny_rate", "cancel_on_slot_full_path"),
                rule="attempt: LinearAttempt with count 1-5, rates 0.3-1.2 ms, receiver prompt / slow / absent, cancellation at a PRNG-chosen instant (or before the call, "
                     "or never); hook points at the tick, before and after the context re-check, at the send / full slot and at exit, plus the receiver's events, form a "
                     "log that the Lean transition system must accept (log lag of unlocked events is accounted for by commuting independent steps); checks: values <= count, "
                     "timestamps non-decreasing, nothing received that was not sent, a re-check that began after cancel() returned must fail, channel closed exactly when "
-                    "the goroutine exits; non-trivial = a dropped tick (slow consumer), cancellation between re-check and send, exit through either branch, pre-cancelled")],
-    assumptions=["time.Ticker is a fair environment (ticks as environment events); real-time rates are not modelled"],
+                    "the goroutine exits; every 25th case is `tiny` (1500 calls at a rate of 1ns-1us: values non-decreasing and at most count — the runtime's ticker stamps "
+                    "are NOT monotone there, finding F7), every 50th `slowcancel` (500 ms rate, absent receiver, cancellation on the slot-full retry path: closed within half a "
+                    "period); non-trivial = a dropped tick (slow consumer), cancellation between re-check and send, exit through either branch, pre-cancelled")],
+    assumptions=["time.Ticker is a fair environment (ticks as environment events); real-time rates are not modelled; its time values are arbitrary "
+                 "(forwarded_stamps_nondecreasing) — the tick numbers of BB.Attempt are the forwarded, clamped values",
+                 "slowcancel uses wall-clock time with a wide margin (closed within 250 ms of the cancellation; the correct code closes within microseconds)"],
     open_statements=["'closed after the count-th value' needs the receiver to keep receiving (a second fairness class): proved as at_most_count + closed_iff_goroutine_gone; "
                      "'closed promptly after cancellation' is a leads-to theorem under weak fairness of the goroutine alone (closed_promptly_after_cancel)"],
 )
